@@ -100,6 +100,10 @@ SHAPES = [
     S(79, 'v', 'SFORBID_V', 'W1'),
     S(80, 'v', 'SREQ_V',   ''),
     S(81, 'v', 'SFORBID_V', ''),
+    # ---- a side effect that assigns to its parameter (MS1): later observers of the call (trace record, RETURN) see what?
+    S(90, 'f', 'REQ',    'MS1 RT R'),
+    S(91, 'v', 'ALLOW',  'MS1 S2'),
+    S(92, 'f', 'REQ',    'W1 MS1 RT TH'),
 ]
 SCOPED_IDS = set(range(70, 82))
 
@@ -123,7 +127,7 @@ def derive(sh):
     """abstract structure of a shape"""
     cl = sh['cl']
     nw = sum(1 for c in cl if c.lstrip('L').startswith('W'))
-    ns = sum(1 for c in cl if c.lstrip('L').startswith('S'))
+    ns = sum(1 for c in cl if c.lstrip('LM').startswith('S'))
     nq = 2 if 'Q2' in cl else (1 if 'Q1' in cl else 0)
     if 'R' in cl or 'LR' in cl:
         retk = 1            # value
